@@ -414,7 +414,8 @@ def judge14Step (prev next : Step) (ln : Bytes) (icase : Bool) (_lastPat : Bytes
     let s := RefSt.ofText prev.text
     match refRegion s prev.xrow icase loc, refTree pat' with
     | some (some (b, e), _, _), some t =>
-      if !validRegion s (b, e) || pat'.isEmpty then ([], pat') else
+      -- a pattern that matches the line's own newline: the line buffer re-terminates what is left; not judged
+      if !validRegion s (b, e) || pat'.isEmpty || pat'.contains 10 then ([], pat') else
       let g := flags.contains 103
       let ls := linesOf prev.text
       let want := ((List.range ls.length).map (fun i =>
